@@ -275,6 +275,11 @@ def run_history(chk, E, key, ops, case_seed, tmp):
         for k in in0:
             if in0[k] != in1[k]:
                 chk.impl_failure(cj, f"{op}: the caller's {k} was modified by the call")
+        if err is not None and op == "fit" and type(err).__name__ == "LeaspyConvergenceError":
+            # a tiny cohort / very short fit may legitimately fail to converge (a variance collapses): the fit algorithm says so
+            # itself; nothing about purity can be concluded, the history ends here (inputs were already compared above)
+            chk.tag("fit_did_not_converge", H.key)
+            return None, case
         if err is not None:
             fid = None
             if op == "scipy" and had_residual:
